@@ -577,7 +577,13 @@ class Gen:
         b = self.body(depth + 1, n=self.i(1, 2))
         r = self.body(depth + 1, n=1)
         ev = self.fresh("local")
-        return [{"h": "begin", "b": b, "m": [["rescue => %s" % ev, r]], "e": "end"}]
+        head = "begin"
+        if self.chance(0.4):
+            # value of a begin block assigned: `x = begin ... end`
+            nv = self.fresh("local")
+            self.vars[nv] = "?"
+            head = "%s = begin" % nv
+        return [{"h": head, "b": b, "m": [["rescue => %s" % ev, r]] if self.chance(0.7) else [], "e": "end"}]
 
     def s_range(self, depth):
         p = self.fresh("blk")
